@@ -37,6 +37,15 @@ def _reciprocal(val):
     return 1 / val
 
 
+def _check_operands(*values):
+    # as for + and *: only numbers, arrays of numbers and priors can be
+    # combined with a prior
+    for value in values:
+        if not isinstance(value, (Number, Prior, np.ndarray)):
+            raise TypeError("Cannot combine prior with objects of type "
+                            "{}".format(type(value)))
+
+
 class Prior(HoloPyObject):
     """
     Base class for Bayesian priors in holopy.
@@ -105,13 +114,16 @@ class Prior(HoloPyObject):
         return self * -1
 
     def __pow__(self, value):
+        _check_operands(value)
         return TransformedPrior(operator.pow, [self, value])
 
     def __rpow__(self, value):
+        _check_operands(value)
         return TransformedPrior(operator.pow, [value, self])
 
     def __array_ufunc__(self, ufunc, method, *args, name=None, **kwargs):
         if method == "__call__" and len(kwargs) == 0:
+            _check_operands(*args)
             return TransformedPrior(ufunc, args, name)
         else:
             raise TypeError('Could not apply numpy ufunc to Prior object. '
